@@ -315,8 +315,24 @@ def _speed_codec(P):
     masks = [rules.const_of(dec, i["b"]) for i in dec.all_insts() if i.op == "and" and rules.const_of(dec, i["b"]) not in (None, 1)]
     shifts = [rules.const_of(enc, i["b"]) for i in enc.all_insts() if i.op == "shl" and rules.const_of(enc, i["b"]) is not None]
     masks = [m for m in masks if m & (m + 1) == 0 and m > 1]
-    if not masks or not shifts or (1 << shifts[0]) != masks[0] + 1:
-        raise AnalysisBroken("speed byte layout not recognised (mask %s, direction shift %s)" % (masks, shifts))
+    # the direction bit: `dir << 7`, or a literal `dir ? 0x80 : 0` / `| 0x80`
+    dirbits = [1 << sh for sh in shifts]
+    for i in enc.all_insts():
+        for k_ in ("a", "b"):
+            cv = rules.const_of(enc, i[k_]) if k_ in i.d and isinstance(i[k_], dict) else None
+            if cv is not None and cv > 1 and cv & (cv - 1) == 0 and i.op in ("or", "select", "xor", "add"):
+                dirbits.append(cv)
+        if i.op == "phi":
+            for b_, v_ in i["incoming"]:
+                cv = rules.const_of(enc, v_)
+                if cv is not None and cv > 1 and cv & (cv - 1) == 0:
+                    dirbits.append(cv)
+        if i.op == "store":
+            cv = rules.const_of(enc, i["val"])
+            if cv is not None and cv > 1 and cv & (cv - 1) == 0:
+                dirbits.append(cv)
+    if not masks or not any(d_ == masks[0] + 1 for d_ in dirbits):
+        raise AnalysisBroken("speed byte layout not recognised (mask %s, direction bit %s)" % (masks, sorted(set(dirbits))))
     return enc, masks[0]
 
 
